@@ -42,9 +42,11 @@ fn key_idx(k: Key) -> usize {
 }
 
 // zero-sized custom easing types (all boxed at the same dangling address; see core_harness)
-#[derive(Clone, Debug)] struct C0;
-#[derive(Clone, Debug)] struct C1;
-#[derive(Clone, Debug)] struct C2;
+#[derive(Clone)] struct C0;
+#[derive(Clone)] struct C1;
+#[derive(Clone)] struct C2;
+macro_rules! same_debug { ($($t:ty),*) => { $( impl std::fmt::Debug for $t { fn fmt(&self, f: &mut std::fmt::Formatter<'_>) -> std::fmt::Result { f.write_str("CustomEasing") } } )* } }
+same_debug!(C0, C1, C2);
 impl EasingFunction for C0 { fn calc(&self, x: f32) -> f32 { x * x } }
 impl EasingFunction for C1 { fn calc(&self, x: f32) -> f32 { 1.0 - (1.0 - x) * (1.0 - x) } }
 impl EasingFunction for C2 { fn calc(&self, x: f32) -> f32 { x * 0.5 + 0.25 } }
